@@ -95,6 +95,7 @@ type DefaultClientDispatcher struct {
 	onRequestCancel     func(requestID string, request ocpp.Request, err *ocpp.Error)
 	timer               *time.Timer
 	paused              bool
+	stopped             bool // set by Stop until the next Start: requestChannel is closed
 	timeout             time.Duration
 }
 
@@ -127,6 +128,7 @@ func (d *DefaultClientDispatcher) Start() {
 	defer d.mutex.Unlock()
 	d.requestChannel = make(chan bool, 1)
 	d.paused = false
+	d.stopped = false
 	d.timer = time.NewTimer(defaultTimeoutTick) // Default to 24 hours tick
 	go d.messagePump()
 }
@@ -146,6 +148,7 @@ func (d *DefaultClientDispatcher) IsPaused() bool {
 func (d *DefaultClientDispatcher) Stop() {
 	d.mutex.Lock()
 	defer d.mutex.Unlock()
+	d.stopped = true
 	close(d.requestChannel)
 	// TODO: clear pending requests?
 }
@@ -162,17 +165,22 @@ func (d *DefaultClientDispatcher) SendRequest(req RequestBundle) error {
 	if d.network == nil {
 		return fmt.Errorf("cannot SendRequest, no network client was set")
 	}
+	d.mutex.RLock()
+	defer d.mutex.RUnlock()
+	// A request accepted after Stop closed the channel would crash here (send on closed channel)
+	// or stay behind in the queue of a stopped dispatcher
+	if d.stopped || d.requestChannel == nil {
+		return fmt.Errorf("cannot SendRequest, the dispatcher is not running")
+	}
 	if err := d.requestQueue.Push(req); err != nil {
 		return err
 	}
-	d.mutex.RLock()
 	// The token only wakes up the message pump: when one is pending already, the pump will find this request in the queue.
 	// Never block here while holding the lock: Pause, Stop and the pump itself need it.
 	select {
 	case d.requestChannel <- true:
 	default:
 	}
-	d.mutex.RUnlock()
 	return nil
 }
 
